@@ -173,6 +173,9 @@ def assign_weights(model, desc):
     for nm, c in zip(names, cur):
       w = _draw_weight(rs, nm, c.shape, desc.get("wscale", 1.0))
       new.append(c if w is None else w)
+    # constructed tensors stored in the description override the drawn ones
+    for idx, val in desc.get("weights", {}).get(layer.name, {}).items():
+      new[int(idx)] = np.array(val, dtype=F32).reshape(new[int(idx)].shape)
     layer.set_weights(new)
 
 
@@ -852,14 +855,39 @@ class Gen(object):
           "kw": {"merge_mode": mm}, "q": {}, "inner": inner}
     return ld, oshape
 
+  KERAS_ACTS = ["hard_sigmoid", "sigmoid", "tanh", "relu", "softmax", "linear",
+                "hard_sigmoid"]
+
   def l_stock(self, shape, src):
-    k = self.pick(["ReLU", "Dropout", "Activation"])
-    kw = {}
+    """Stock Keras layers inside the quantized model, with built-in
+    activations whose names collide with library functions / table names."""
+    rank = len(shape)
+    opts = ["ReLU", "Dropout", "Activation", "Activation", "BatchNormalization",
+            "Dense", "Dense"]
+    if rank == 3:
+      opts += ["Conv2D", "Conv2D"]
+    if rank == 2:
+      opts += ["LSTM", "GRU"]
+    k = self.pick(opts)
+    kw, osh = {}, list(shape)
     if k == "Dropout":
       kw = {"rate": 0.25}
-    if k == "Activation":
-      kw = {"activation": self.pick(["tanh", "relu"])}
-    return {"name": self.name(k), "cls": k, "in": [src], "kw": kw, "q": {}}, list(shape)
+    elif k == "Activation":
+      kw = {"activation": self.pick(self.KERAS_ACTS)}
+    elif k == "Dense":
+      kw = {"units": self.i(1, 4), "activation": self.pick(self.KERAS_ACTS),
+            "use_bias": self.b()}
+      osh = list(shape[:-1]) + [kw["units"]]
+    elif k == "Conv2D":
+      kw = {"filters": self.i(1, 3), "kernel_size": [1, 1], "padding": "same",
+            "activation": self.pick(self.KERAS_ACTS)}
+      osh = [shape[0], shape[1], kw["filters"]]
+    elif k in ("LSTM", "GRU"):
+      kw = {"units": self.i(1, 3), "return_sequences": True,
+            "activation": self.pick(["tanh", "relu", "sigmoid"]),
+            "recurrent_activation": self.pick(["hard_sigmoid", "sigmoid"])}
+      osh = [shape[0], kw["units"]]
+    return {"name": self.name(k), "cls": k, "in": [src], "kw": kw, "q": {}}, osh
 
 
 def _merge(g, layers, shapes, cur, prev_names):
@@ -901,7 +929,7 @@ def model_strategy(profile="c13", rich=False, family=None):
                   "dwfold", "scaleshift"]
         else:
           opts = ["conv", "conv", "dw", "sep", "bn", "act", "pool", "fold",
-                  "dwfold", "adaptive", "scaleshift", "stock"]
+                  "dwfold", "adaptive", "scaleshift", "stock", "stock"]
         k = g.pick(opts)
         if k == "conv":
           ld, osh = g.l_qconv2d(sh, cur)
@@ -958,7 +986,7 @@ def model_strategy(profile="c13", rich=False, family=None):
       for _ in range(nbody):
         sh = shapes[cur]
         k = g.pick(["conv1d", "sep1d", "rnn", "bidir", "bn", "act", "dense",
-                    "scaleshift"])
+                    "scaleshift"] + (["stock"] if profile == "c13" else []))
         if k == "conv1d":
           ld, osh = g.l_qconv1d(sh, cur)
         elif k == "sep1d":
@@ -973,6 +1001,8 @@ def model_strategy(profile="c13", rich=False, family=None):
           ld, osh = g.l_qact(sh, cur)
         elif k == "dense":
           ld, osh = g.l_qdense(sh, cur)
+        elif k == "stock":
+          ld, osh = g.l_stock(sh, cur)
         else:
           ld, osh = g.l_qscaleshift(sh, cur)
         layers.append(ld)
@@ -1004,7 +1034,7 @@ def model_strategy(profile="c13", rich=False, family=None):
         sh = shapes[cur]
         opts = ["dense", "dense", "bn", "act", "scaleshift"]
         if profile != "c14":
-          opts += ["adaptive", "stock"]
+          opts += ["adaptive", "stock", "stock"]
         k = g.pick(opts)
         if k == "dense":
           ld, osh = g.l_qdense(sh, cur)
@@ -1174,6 +1204,11 @@ def _desc(inp, layers, fam, seed):
           "wseed": 1000 + seed, "wscale": 1.0, "xseed": 2000 + seed}
 
 
+# kernels (multiples of 1/32) for which quantized_bits(3, i, 1, 'auto_po2') is not
+# idempotent: the po2 scale refitted to q(w) differs from the one fitted to w
+CONSTRUCTED_KERNELS = {"conv_3_1": [[[[3.3125, 0.1875, -2.9375]], [[-0.3125, -0.03125, 4.3125]]], [[[0.875, -0.71875, -2.6875]], [[-2.375, -4.15625, -4.625]]]], "dw_3_0": [[[[-0.28125], [1.90625], [-2.21875]], [[-0.875], [0.21875], [-0.4375]]], [[[0.1875], [0.09375], [-0.90625]], [[-0.84375], [-1.5], [-1.03125]]]], "dense_3_0": [[-0.28125, -0.21875], [-0.125, 0.0625], [-0.1875, -0.46875]]}
+
+
 def canonical_models(profile):
   relu = {"q": "quantized_relu", "kw": {"bits": 4, "integer": 1}}
   po2 = {"q": "quantized_po2", "kw": {"bits": 4, "max_value": 2}}
@@ -1281,6 +1316,33 @@ def canonical_models(profile):
     d["out"] = "cat"
     ms.append(d)
   if profile == "c13":
+    # stock Keras layers with built-in activations inside quantized models
+    ms.append(_desc([4], [
+        ("QDense", {"units": 3, "use_bias": True},
+         {"kernel_quantizer": fx, "bias_quantizer": fx, "activation": None}),
+        ("Activation", {"activation": "hard_sigmoid"}, {}),
+        ("Dense", {"units": 3, "activation": "hard_sigmoid"}, {}),
+        ("BatchNormalization", {}, {}),
+        ("Dense", {"units": 3, "activation": "tanh"}, {}),
+        ("QActivation", {}, {"activation": relu}),
+        ("Dense", {"units": 2, "activation": "softmax"}, {})], "vec", 18))
+    ms.append(_desc([3, 2], [
+        ("LSTM", {"units": 2, "return_sequences": True,
+                  "recurrent_activation": "hard_sigmoid", "activation": "tanh"}, {}),
+        ("QDense", {"units": 2, "use_bias": True},
+         {"kernel_quantizer": fx, "bias_quantizer": None, "activation": None}),
+        ("GRU", {"units": 2, "return_sequences": False,
+                 "recurrent_activation": "sigmoid", "activation": "relu"}, {})],
+                    "seq", 19))
+    ms.append(_desc([4, 4, 2], [
+        ("Conv2D", {"filters": 2, "kernel_size": [1, 1], "padding": "same",
+                    "activation": "sigmoid"}, {}),
+        ("QConv2D", {"filters": 2, "kernel_size": [2, 2], "strides": [1, 1],
+                     "padding": "valid", "dilation_rate": [1, 1], "use_bias": True},
+         {"kernel_quantizer": fx, "bias_quantizer": fx, "activation": None}),
+        ("Conv2D", {"filters": 2, "kernel_size": [1, 1], "padding": "same",
+                    "activation": "hard_sigmoid"}, {}),
+        fl], "image", 20))
     ms.append(_desc([4], [
         ("QDense", {"units": 3, "use_bias": True, "trainable": False},
          {"kernel_quantizer": fx, "bias_quantizer": fx, "activation": None}),
@@ -1420,6 +1482,27 @@ def canonical_models(profile):
         ("QDense", {"units": 2, "use_bias": True},
          {"kernel_quantizer": _qb(4, 2, "auto_po2"), "bias_quantizer": _qb(4, 2, None),
           "activation": None})], "chain", 10))
+    # freeze chain whose 3-bit auto_po2 kernels were constructed (offline
+    # search) so that the scale fitted to q(w) differs from the one fitted to
+    # w: a model that is not really frozen changes on export / re-export
+    d = _desc([4, 4, 1], [
+        ("QConv2D", {"filters": 3, "kernel_size": [2, 2], "strides": [2, 2],
+                     "padding": "valid", "dilation_rate": [1, 1], "use_bias": False},
+         {"kernel_quantizer": _qb(3, 1, "auto_po2"), "bias_quantizer": None,
+          "activation": None}),
+        ("QDepthwiseConv2D", {"kernel_size": [2, 2], "strides": [1, 1],
+                              "padding": "valid", "depth_multiplier": 1,
+                              "use_bias": False, "dilation_rate": [1, 1]},
+         {"depthwise_quantizer": _qb(3, 0, "auto_po2"), "bias_quantizer": None,
+          "activation": None}),
+        fl,
+        ("QDense", {"units": 2, "use_bias": True},
+         {"kernel_quantizer": _qb(3, 0, "auto_po2"), "bias_quantizer": _qb(4, 2, None),
+          "activation": None})], "chain", 21)
+    d["weights"] = {"c1_qconv2d": {"0": CONSTRUCTED_KERNELS["conv_3_1"]},
+                    "c2_qdepthwiseconv2d": {"0": CONSTRUCTED_KERNELS["dw_3_0"]},
+                    "c4_qdense": {"0": CONSTRUCTED_KERNELS["dense_3_0"]}}
+    ms.append(d)
     lay = [("QDense", {"__in__": ["in"], "units": 3, "use_bias": True},
             {"kernel_quantizer": w, "bias_quantizer": b, "activation": None})
            for w, b in [(_qb(4, 0, 2.0), _qb(4, 1, 0.5)),
